@@ -31,6 +31,7 @@ std::vector<double> GenerateStochasticDistribution (std::vector<double> mesh_x, 
 
   std::vector<double> mesh_x_sto = std::vector<double>(mesh_x.size(), 0);
   std::vector<double> tot_species(n_species, 0);
+  std::vector<double> sum_species(n_species, 0);
   std::vector<double> tot2_species(n_species, 0);
   std::vector<double> dtot_species(n_species, 0);
 
@@ -46,6 +47,7 @@ std::vector<double> GenerateStochasticDistribution (std::vector<double> mesh_x, 
 
   for(int i=0; i<n_species; i++)
     {
+    sum_species[i] = tot_species[i];
     tot_species[i] = std::floor(tot_species[i]);
     }
 
@@ -97,7 +99,7 @@ std::vector<double> GenerateStochasticDistribution (std::vector<double> mesh_x, 
     for(;;)
       {
       double cumul = 0;
-      double target = uiud(rng) * tot_species[s];
+      double target = uiud(rng) * sum_species[s];
 
       for(int i=0; i<n_meshes; i++)
         {
